@@ -49,7 +49,13 @@ impl SetVariables {
                 continue;
             }
 
-            let mut variable = env.get_or_create_variable(&field.value, self.scope.into());
+            // The `allexport` option applies only to variables that are
+            // assigned to. An operand without a value performs no assignment.
+            let mut variable = if value_to_assign.is_some() {
+                env.get_or_create_variable(&field.value, self.scope.into())
+            } else {
+                env.variables.get_or_new(&field.value, self.scope.into())
+            };
 
             // Assign the value to the variable.
             if let Some(value) = value_to_assign
